@@ -210,8 +210,10 @@ def GObj.edit (o : GObj) : GEdit → Outcome (Int × GObj)
     | .fault f => .fault f
   | .detail d =>
     -- libwifi_add_action_detail: (re)allocate detail_length + data_len bytes, append, 8-bit length
-    let buf := (o.detail.take o.detailLen) ++ d
-    let nl := (o.detailLen + d.length) % 256
-    .ok (nl, { o with detail := buf, detailLen := nl })
+    if d.length = 0 then .ok (o.detailLen, o)
+    else
+      let buf := (o.detail.take o.detailLen) ++ d
+      let nl := (o.detailLen + d.length) % 256
+      .ok (nl, { o with detail := buf, detailLen := nl })
 
 end LWV.Model
